@@ -151,8 +151,8 @@ def apply(doc, ir, ins) -> tuple[dict, list]:
             o = d["paths"][op["path"]][op["method"]]
             f = x["fault"]
             if f == "optional_path_param":
-                pp = [p for p in o.get("parameters", []) if p["in"] == "path"] or \
-                     [p for p in d["paths"][op["path"]].get("parameters", []) if p["in"] == "path"]
+                pp = [p for p in o.get("parameters", []) if p.get("in") == "path"] or \
+                     [p for p in d["paths"][op["path"]].get("parameters", []) if p.get("in") == "path"]
                 if not pp:
                     o.setdefault("parameters", []).append({"name": "zzopt", "in": "path", "schema": {"type": "string"}})
                 else:
